@@ -288,6 +288,35 @@ VIntSem(nm, rec, k) ==
        [] nm = "v_lshrrev_b64" -> VR(Shr(BB, a[1] % 64))
        [] nm = "v_ashrrev_i64" -> VR(Sar(BB, a[1] % 64))
 
+\* ------------------------------------------------------------ sub-dword addressing (VOP_SDWA)
+\* source select (zero-extended; SEXT/NEG/ABS are not generated), destination select and DST_UNUSED
+SdwaSel(w, sel) ==
+  CASE sel = 0 -> <<w[1] % 256, 0>>   [] sel = 1 -> <<w[1] \div 256, 0>>
+    [] sel = 2 -> <<w[2] % 256, 0>>   [] sel = 3 -> <<w[2] \div 256, 0>>
+    [] sel = 4 -> <<w[1], 0>>         [] sel = 5 -> <<w[2], 0>>
+    [] OTHER -> w
+SdwaPlace(r, sel, un, old) ==
+  IF sel >= 6 THEN r
+  ELSE LET width == IF sel <= 3 THEN 8 ELSE 16
+           pos   == CASE sel = 0 -> 0 [] sel = 1 -> 8 [] sel = 2 -> 16 [] sel = 3 -> 24 [] sel = 4 -> 0 [] sel = 5 -> 16
+           field == WAnd(r, MaskLow(width, 2))
+           placed == Shl(field, pos)
+           fmask == Shl(MaskLow(width, 2), pos)
+           upper == Inv(MaskLow(pos + width, 2))          \* the bits above the field
+       IN CASE un = 0 -> placed                                           \* SDWA_UNUSED_PAD
+            [] un = 1 -> IF Bit(field, width - 1) = 1 THEN WOr(placed, upper) ELSE placed    \* SDWA_UNUSED_SEXT
+            [] un = 2 -> WOr(WAnd(old, Inv(fmask)), placed)               \* SDWA_UNUSED_PRESERVE
+
+VSdwaSem(nm, rec, k) ==
+  LET st == rec.pre
+      a == SdwaSel(V32(rec.s0, st, k), rec.s0sel)
+      b == SdwaSel(V32(rec.s1, st, k), rec.s1sel)
+      r == CASE nm = "v_and_b32" -> VR(WAnd(a, b))
+             [] nm = "v_or_b32"  -> VR(WOr(a, b))
+             [] nm = "v_xor_b32" -> VR(WXor(a, b))
+             [] nm = "v_add_co_u32" -> LET x == Add(a, b, 0) IN VRC(x.v, x.c)
+  IN [d |-> SdwaPlace(r.d, rec.dsel, rec.dun, SubSeq(rec.d.pre[k], 1, 2)), cc |-> r.cc]
+
 \* mnemonic -> [cond, ty] for the V_CMP family
 CmpParts(nm) ==
   CASE nm = "v_cmp_lt_f32" -> <<"lt", "f32">>  [] nm = "v_cmp_eq_f32" -> <<"eq", "f32">>
@@ -395,11 +424,15 @@ VFloatSem(nm, rec, k) ==
        [] nm = "v_cvt_f64_u32" -> FRInt(FFromU(Fmt64, a))
        [] nm = "v_cvt_f32_ubyte0" -> FRInt(FFromU(F, <<a[1] % 256, 0>>))
        [] nm = "v_cvt_u32_f32" -> FRInt(FToU32(F, a))
-       [] nm = "v_cvt_i32_f32" -> FRInt(FToI32(F, a))
+       [] nm = "v_cvt_i32_f32" ->
+            \* negative saturation: the manual says "-max_int"; INT_MIN (hardware) and -INT_MAX are both accepted
+            LET r == FToI32(F, a) IN [d |-> r, cc |-> 0, alt |-> IF r = <<0, 32768>> THEN <<1, 32768>> ELSE r]
        [] nm = "v_cvt_f32_f64" -> FR32(FConv(F, Fmt64, A), {})
        [] nm = "v_cvt_f64_f32" -> LET r == FConv(Fmt64, F, a) IN [d |-> r.w, cc |-> 0, nan64 |-> r.nan, skip |-> F32IsDen(a)]
        [] nm = "v_cvt_f16_f32" -> LET r == FConv(Fmt16, F, a)
-                                  IN [d |-> IF r.nan THEN Z32 ELSE <<r.w[1], 0>>, cc |-> 0, nan16 |-> r.nan]
+                                  IN [d |-> IF r.nan THEN Z32 ELSE <<r.w[1], 0>>, cc |-> 0, nan16 |-> r.nan,
+                                      \* subnormal half results depend on MODE.FP_DENORM (not modelled)
+                                      skip |-> ~r.nan /\ FIsDen(Fmt16, r.w)]
        [] nm = "v_trunc_f32"   -> FR32(FTruncF(F, a), {a})
        [] nm = "v_rndne_f32"   -> FR32(FRndneF(F, a), {a})
 
